@@ -322,6 +322,7 @@ func (in *Interp) assertion(id string, cond Value) {
 		switch r.Res {
 		case "sat":
 			in.violation(id, r.Model, "")
+			in.results.lastNewViolation = in.harness + "|" + id
 		case "unknown":
 			in.results.inconclusive("solver unknown on assertion " + id + " " + r.Err)
 		}
@@ -337,6 +338,11 @@ func (in *Interp) assertion(id string, cond Value) {
 	}
 	// continue under the assertion
 	if c.IsFalse() {
+		if len(regs) > 0 && in.results.lastNewViolation != in.harness+"|"+id {
+			// the failure is a recorded finding: keep going, so that a different
+			// violation further down the same path is still reported
+			return
+		}
 		panic(pathEnd{"assert failed"})
 	}
 	in.assume(c)
